@@ -791,7 +791,7 @@ def plan_lifecycle(length):
             if r < 0.08:
                 up = not up
                 yield ('conn', 1 if up else 0)
-            elif r < 0.16 and len(live) > 1 and up:
+            elif r < 0.16 and len(live) > 1:
                 c = rng.choice(live)
                 live.remove(c)
                 yield ('close', c) if rng.random() < 0.6 else ('gc', c)
